@@ -16,6 +16,13 @@ pub trait ThreadAgent: Send + Sync {
     fn blocked(&self, id: usize);
     fn acquired(&self, id: usize);
     fn released(&self, id: usize);
+    fn cond_wait(&self, cond: usize);
+    fn cond_notify(&self, cond: usize);
+    /// registers a thread that is about to be spawned by the code under test; returns its agent
+    fn create_child(&self) -> Option<Arc<dyn ThreadAgent>>;
+    /// first / last action of a spawned thread
+    fn start(&self);
+    fn end(&self);
 }
 
 pub trait SleepAgent: Send + Sync {
@@ -26,6 +33,9 @@ thread_local! {
     static NOW: Cell<Option<DateTime<Local>>> = const { Cell::new(None) };
     static AGENT: RefCell<Option<Arc<dyn ThreadAgent>>> = const { RefCell::new(None) };
 }
+
+static PENDING: std::sync::Mutex<Vec<(usize, Arc<dyn ThreadAgent>)>> = std::sync::Mutex::new(Vec::new());
+static NEXT_TOKEN: std::sync::atomic::AtomicUsize = std::sync::atomic::AtomicUsize::new(1);
 
 static SLEEP_AGENT: std::sync::RwLock<Option<Arc<dyn SleepAgent>>> = std::sync::RwLock::new(None);
 
@@ -55,6 +65,52 @@ impl log4rs::verif::Hooks for Dispatcher {
         let a = AGENT.with(|a| a.borrow().clone());
         if let Some(a) = a {
             a.released(id);
+        }
+    }
+    fn cond_wait(&self, cond: usize) {
+        let a = AGENT.with(|a| a.borrow().clone());
+        match a {
+            Some(a) => a.cond_wait(cond),
+            None => std::thread::yield_now(),
+        }
+    }
+    fn cond_notify(&self, cond: usize) {
+        let a = AGENT.with(|a| a.borrow().clone());
+        if let Some(a) = a {
+            a.cond_notify(cond);
+        }
+    }
+    fn thread_create(&self) -> usize {
+        let a = AGENT.with(|a| a.borrow().clone());
+        match a.and_then(|a| a.create_child()) {
+            Some(child) => {
+                let token = NEXT_TOKEN.fetch_add(1, std::sync::atomic::Ordering::SeqCst);
+                PENDING.lock().unwrap().push((token, child));
+                token
+            }
+            None => usize::MAX,
+        }
+    }
+    fn thread_start(&self, token: usize) {
+        if token == usize::MAX {
+            return;
+        }
+        let child = {
+            let mut p = PENDING.lock().unwrap();
+            p.iter().position(|(t, _)| *t == token).map(|i| p.remove(i).1)
+        };
+        if let Some(child) = child {
+            AGENT.with(|x| *x.borrow_mut() = Some(child.clone()));
+            child.start();
+        }
+    }
+    fn thread_end(&self, token: usize) {
+        if token == usize::MAX {
+            return;
+        }
+        let a = AGENT.with(|a| a.borrow_mut().take());
+        if let Some(a) = a {
+            a.end();
         }
     }
     fn now(&self, real: DateTime<Local>) -> DateTime<Local> {
